@@ -304,10 +304,24 @@ def setup_base_orchestrator(
     root = get_or_detect_project_root(path_objs, project_root)
     orchestrator = Orchestrator(project_root=root)
 
+    # `thailint --config FILE <linter> ...` (group-level option) names the same kind of file
+    # as `thailint <linter> --config FILE ...`; the command-level option wins
+    config_file = config_file or _group_level_config_path()
     if config_file:
         load_config_file(orchestrator, config_file, verbose)
 
     return orchestrator
+
+
+def _group_level_config_path() -> str | None:
+    """Return the path given with the group-level --config option, if any."""
+    ctx = click.get_current_context(silent=True)
+    obj = ctx.obj if ctx is not None and isinstance(ctx.obj, dict) else {}
+    if obj.get("cli_project_root"):
+        # An explicit --project-root takes precedence: its own configuration file is used
+        return None
+    value = obj.get("cli_config_path")
+    return str(value) if value else None
 
 
 def load_config_file(orchestrator: "Orchestrator", config_file: str, verbose: bool) -> None:
